@@ -3,7 +3,7 @@
     translation validated by correspondence K5).  [eql] = elementwise equality of rationals. *)
 From Coq Require Import QArith Qabs List Bool String.
 From Coq Require Import Permutation.
-From IV Require Import QL Dist Ecdf QListFacts GenUtils GenScalars RatLS C16_compose C03_proofs C02_proofs C04_proofs C01_proofs C09_proofs RatLS_proofs C16_sortlike C01_nonparam NP IsimipStep3 IsimipStep3_proofs.
+From IV Require Import QL Dist Ecdf QListFacts GenUtils GenScalars RatLS C16_compose C03_proofs C02_proofs C04_proofs C01_proofs C09_proofs RatLS_proofs C16_sortlike C01_nonparam NP IsimipStep3 IsimipStep3_proofs IsimipStep5 IsimipWindow IsimipWindow_reference.
 Import ListNotations.
 Open Scope Q_scope.
 
@@ -86,3 +86,32 @@ Print Assumptions C01_qm_nonparametric_no_residual_bias.
 Theorem C01_isimip_trend_centred : forall sig years x, years <> [] -> QL.qsum (map snd (annual_trend sig years x)) == 0.
 Proof. exact trend_centred. Qed.
 Print Assumptions C01_isimip_trend_centred.
+
+(** ISIMIP's window pipeline (unbounded additive variable; Model/IsimipWindow.v, correspondence K22) on the reference
+    period (cm_future = cm_hist with its years and significance decision): for a location-scale distribution whose fitted
+    location is the sample mean (hypotheses as above, satisfiable by the rational family: C01_ratls_location_scale), where
+    the cdf values are not clamped, the debiased window has the mean of the detrended observations plus the mean of the
+    trend added back ... *)
+Theorem C01_isimip_window_reference_mean : forall (P : Type) (D : dist P) (loc sc : P -> Q) (F0 Q0 : Q -> Q),
+  (forall p x, cdf D p x == F0 ((x - loc p) / sc p)) -> (forall p q, ppf D p q == loc p + sc p * Q0 q) ->
+  (forall z, Q0 (F0 z) == z) -> (forall u v, u == v -> Q0 u == Q0 v) -> (forall p, ~ sc p == 0) ->
+  (forall l, loc (fit D l) == QL.qmean l) ->
+  forall em im thr so sh yo yh obs hist,
+  List.length hist = List.length yh -> step3_remove sh yh hist <> [] ->
+  Forall (fun x => thr <= cdf D (fit D (step3_remove sh yh hist)) x /\ cdf D (fit D (step3_remove sh yh hist)) x <= 1 - thr) (step3_remove sh yh hist) ->
+  QL.qmean (isimip_window D em im thr so sh sh yo yh yh obs hist hist)
+  == QL.qmean (step3_remove so yo obs) + QL.qmean (step3_trend sh yh hist).
+Proof. exact @isimip_window_reference_mean. Qed.
+Print Assumptions C01_isimip_window_reference_mean.
+
+(** ... and exactly the observed mean when no trend is removed *)
+Theorem C01_isimip_window_reference_mean_no_trend : forall (P : Type) (D : dist P) (loc sc : P -> Q) (F0 Q0 : Q -> Q),
+  (forall p x, cdf D p x == F0 ((x - loc p) / sc p)) -> (forall p q, ppf D p q == loc p + sc p * Q0 q) ->
+  (forall z, Q0 (F0 z) == z) -> (forall u v, u == v -> Q0 u == Q0 v) -> (forall p, ~ sc p == 0) ->
+  (forall l, loc (fit D l) == QL.qmean l) ->
+  forall em im thr yo yh obs hist,
+  List.length obs = List.length yo -> List.length hist = List.length yh -> hist <> [] ->
+  Forall (fun x => thr <= cdf D (fit D (step3_remove false yh hist)) x /\ cdf D (fit D (step3_remove false yh hist)) x <= 1 - thr) (step3_remove false yh hist) ->
+  QL.qmean (isimip_window D em im thr false false false yo yh yh obs hist hist) == QL.qmean obs.
+Proof. exact @isimip_window_reference_mean_no_trend. Qed.
+Print Assumptions C01_isimip_window_reference_mean_no_trend.
